@@ -363,7 +363,10 @@ class ResultRule(HookableMixin):
         elif action == Actions.STOP:
             raise HookStop('Script requested immediate stop.')
         elif self._ssl_verification and isinstance(error, SSLVerificationError):
-            raise
+            # The certificate will not get better by retrying. The error is
+            # counted in the statistics (exit status 5); carry on with the
+            # other URLs.
+            item_session.set_status(Status.skipped)
         elif isinstance(error, ConnectionRefused) and \
                 not self.retry_connrefused:
             item_session.set_status(Status.skipped)
